@@ -29,6 +29,7 @@ func init() {
 var fullAlphabet = []string{"ban", "unban", "use", "restart", "crash", "useB2", "sync"}
 var toggleAlphabet = []string{"ban", "unban", "use"}
 var restartAlphabet = []string{"ban", "unban", "use", "restart", "crash"}
+var peerAlphabet = []string{"ban", "unban", "sync", "useB2"}
 
 // capture records what the broker would broadcast.
 type capture struct{ payloads []mesh.GossipData }
@@ -343,6 +344,8 @@ func alphabetOf(name string) []string {
 		return toggleAlphabet
 	case "restart":
 		return restartAlphabet
+	case "peer":
+		return peerAlphabet
 	}
 	return fullAlphabet
 }
@@ -512,10 +515,12 @@ func run(c *core.Ctx) {
 	if c.Quick() {
 		search(c, "toggle", toggleAlphabet, 6)
 		search(c, "restart", restartAlphabet, 4)
+		search(c, "peer", peerAlphabet, 6)
 		search(c, "full", fullAlphabet, 3)
 	} else {
 		search(c, "toggle", toggleAlphabet, 8)
 		search(c, "restart", restartAlphabet, 6)
+		search(c, "peer", peerAlphabet, 8)
 		search(c, "full", fullAlphabet, 5)
 	}
 	c.Add("states", c.Count("kill_cases"))
@@ -543,6 +548,9 @@ func replay(c *core.Ctx, raw json.RawMessage) {
 	}
 	if cs.Alphabet == "restart" {
 		ops = restartAlphabet
+	}
+	if cs.Alphabet == "peer" {
+		ops = peerAlphabet
 	}
 	w := newWenv()
 	defer w.close()
